@@ -194,46 +194,7 @@ reply control_connection::recv()
      */
     if (code == 421)
     {
-        boost::system::error_code ec;
-
-        /* Shutdown the SSL layer. */
-        if (socket_->has_ssl_support())
-        {
-            socket_->ssl_shutdown(ec);
-
-            if (ec == boost::asio::error::eof)
-            {
-                /* Rationale:
-                 * http://stackoverflow.com/questions/25587403/boost-asio-ssl-async-shutdown-always-finishes-with-an-error
-                 */
-            }
-            else if (ec)
-            {
-                throw ftp_exception(ec, "Cannot close control connection");
-            }
-        }
-
-        /* Shutdown the TCP layer. */
-        socket_->shutdown(boost::asio::ip::tcp::socket::shutdown_both, ec);
-
-        if (ec == boost::asio::error::not_connected)
-        {
-            /* Ignore 'not_connected' error. We could get ENOTCONN if a server side
-             * has already closed the control connection. This suits us, just close
-             * the socket.
-             */
-        }
-        else if (ec)
-        {
-            throw ftp_exception(ec, "Cannot close control connection");
-        }
-
-        socket_->close(ec);
-
-        if (ec)
-        {
-            throw ftp_exception(ec, "Cannot close control connection");
-        }
+        disconnect();
     }
 
     return reply(code, status_string);
@@ -305,6 +266,7 @@ std::string control_connection::read_line()
 void control_connection::disconnect()
 {
     boost::system::error_code ec;
+    boost::system::error_code first_ec;
 
     /* Shutdown the SSL layer. */
     if (socket_->has_ssl_support())
@@ -319,7 +281,7 @@ void control_connection::disconnect()
         }
         else if (ec)
         {
-            throw ftp_exception(ec, "Cannot close control connection");
+            first_ec = ec;
         }
     }
 
@@ -333,16 +295,30 @@ void control_connection::disconnect()
          * the socket.
          */
     }
-    else if (ec)
+    else if (ec && !first_ec)
     {
-        throw ftp_exception(ec, "Cannot close control connection");
+        first_ec = ec;
     }
 
+    /* Always close the socket, even if the shutdown has failed. */
     socket_->close(ec);
 
-    if (ec)
+    if (ec && !first_ec)
     {
-        throw ftp_exception(ec, "Cannot close control connection");
+        first_ec = ec;
+    }
+
+    /* Drop the unread data and the SSL mode of the closed connection. */
+    buffer_.clear();
+
+    if (socket_->has_ssl_support())
+    {
+        set_ssl(nullptr);
+    }
+
+    if (first_ec)
+    {
+        throw ftp_exception(first_ec, "Cannot close control connection");
     }
 }
 
